@@ -4,13 +4,18 @@ check catches it) -- applies the patch to /repo, runs ./check, reverts.  Writes 
 import json, os, subprocess, sys, re
 V = os.path.dirname(os.path.dirname(os.path.abspath(__file__)))
 rows = []
-only = sys.argv[1:]
+only = [a for a in sys.argv[1:] if a != "--from-meta"]
+FROM_META = "--from-meta" in sys.argv   # rebuild RESULTS.md from the detected_by records of an earlier run
 for sid in sorted(os.listdir(os.path.join(V, "seeded"))):
     d = os.path.join(V, "seeded", sid)
-    if not os.path.isdir(d) or (only and sid not in only):
+    if not os.path.isdir(d) or (only and sid not in only) or not os.path.exists(os.path.join(d, "meta.json")):
         continue
     meta = json.load(open(os.path.join(d, "meta.json")))
     prop = meta["breaks_property"]
+    if FROM_META:
+        db = meta.get("detected_by") or {}
+        rows.append((sid, prop, db.get("verdict", "not run"), db.get("failed_obligations", "")))
+        continue
     assert subprocess.run(["git", "-C", "/repo", "status", "--porcelain", "--untracked-files=no"], capture_output=True, text=True).stdout.strip() == "", "repo not clean"
     ap = subprocess.run(["git", "-C", "/repo", "apply", os.path.join(d, "patch.diff")], capture_output=True, text=True)
     if ap.returncode != 0:
